@@ -561,3 +561,7 @@ func init() {
 func init() {
 	ctl("TableCache.Run returns without waiting for the dispatcher", "V-JOIN", "Run|returns only after", "cache", "TableCache", "Run", kStmt, "wg.Wait()", 0, to("<-stopCh"))
 }
+
+func init() {
+	ctl("update3 trusts the monitor id it is sent", "P-NIL-LOOKUP", "update3|deref map element", "client", "ovsdbClient", "update3", kStmt, "if mon, ok := db.monitors[cookie.ID]; ok", 0, to("mon := db.monitors[cookie.ID]\nmon.LastTransactionID = lastTransactionID"))
+}
